@@ -44,11 +44,19 @@ Definition wt_decl (nd : node) (p : N) (v : value) : bool :=
   wt_in p v &&
   match computer_of p with
   | KNone => shape_ok p v
-  | k => if modelled k v then true
+  | k => if modelled (has_metrics nd) k v then true
          else shape_ok p (match lookup_oracle nd p with Some r => r | None => v end)
   end.
 
+(* recorded font metrics are ratios: not negative *)
+Definition wt_metrics (nd : node) : bool :=
+  match n_metrics nd with
+  | Some m => Qle_bool 0 (m_ex m) && Qle_bool 0 (m_ch m)
+  | None => true
+  end.
+
 Definition wt_node (nd : node) : bool :=
+  wt_metrics nd &&
   forallb (fun d => match d with
                     | D p (CExplicit v) | D p (CPending (PVal v)) => (1 <=? p) && (p <? nb_properties) && wt_decl nd p v
                     | D p _ => true
